@@ -8,12 +8,19 @@ reads it — `Any`, `None`, `str`, `bool`, `int` (bool allowed), `float` (int al
 resolved to the classes of the tree — and every attribute of every model built from accepted data
 must belong to it; a property annotated without `Maybe` must be required or defaulted and is
 never the not-passed marker.  Families: random trees, tuple items of structurally equal distinct
-classes, compositions of classes, parent/child classes used in both orders, valid defaults."""
+classes, compositions of classes, parent/child classes used in both orders, valid defaults, classes whose
+`patternProperties` also match declared property names (at the top and nested), data that already holds built model
+instances (of the position's class, of a subclass, of an equally shaped class under another name or rebuilt under the
+same name, of a class with one more property) at class-typed positions.  The oracle is applied to EVERY model instance
+reachable from the built model (attributes, list items, additional / pattern members), not only to the outermost one."""
 import ast
+import copy
 import random
+import re
 
 from statham.schema.constants import NotPassed
 from statham.schema.elements import Element, Object
+from statham.schema.elements.composition import CompositionElement
 from statham.schema.elements.meta import ObjectClassDict, ObjectMeta
 from statham.schema.property import Property
 from statham.serializers.orderer import get_object_classes
@@ -25,9 +32,13 @@ from harness.props.c08 import dump_to_schema
 
 ID = "C19"
 TIE_MODULES = ["StathamModel.Tie"]
-ASSUMPTIONS = ["defaults are valid for their schema (the property's own restriction): cases with an invalid default are skipped and counted",
+ASSUMPTIONS = ["an optional declared property with a default whose JSON name is also matched by a patternProperties pattern of its class loses the default when "
+               "omitted (open finding C05-pattern-overlap; it breaks C19's 'annotated as always present => present' too). Exactly there - and, where the model can "
+               "be asked, only if the model predicts the very same hole - the not-passed attribute is counted (distribution key 'c05-pattern-overlap-default-lost', "
+               "and a note) instead of reported; once known_findings.json lists C05-pattern-overlap for C19 it is reported under that finding's id",
+               "defaults are valid for their schema (the property's own restriction): cases with an invalid default are skipped and counted",
                "bool is read as a subtype of int (as type checkers do); int is accepted where float is announced (stated in the property)"]
-N_TREES = {"quick": 500, "thorough": 20000}
+N_TREES = {"quick": 580, "thorough": 23200}
 
 
 class Bad(Exception):
@@ -160,19 +171,337 @@ def norm(text):
     return text.replace(" ", "")
 
 
+# ----------------------------------------------------------------------------- data that already holds built models
+
+class ModelRef:
+    """Symbolic input value: an already-built instance of a class related to the `idx`-th class of the tree (in the order of
+    `tree_classes`), built from the JSON value `data`.  Kept symbolic so that a case can be written down and replayed."""
+    RELS = ["same", "twin", "twin", "reparsed", "subclass", "wider"]
+
+    def __init__(self, idx, name, rel, data):
+        self.idx, self.name, self.rel, self.data = idx, name, rel, data
+
+    def __repr__(self):
+        return f"<{self.rel} of {self.name}#{self.idx}: {self.data!r}>"
+
+
+def tree_classes(cls):
+    seen, out = set(), []
+    for c in get_object_classes(cls):
+        if id(c) not in seen:
+            seen.add(id(c))
+            out.append(c)
+    return out
+
+
+def related_class(c, rel, cache):
+    """same: the class itself; subclass: an empty subclass; twin: the same declaration under another name; reparsed: the same
+    declaration built a second time under the same name; wider: another name and one more optional property"""
+    key = (id(c), rel)
+    if key in cache:
+        return cache[key]
+    if rel == "same":
+        out = c
+    elif rel == "subclass":
+        out = ObjectMeta(c.__name__ + "Sub", (c,), ObjectClassDict())
+    else:
+        d = core.dump_elem(c)
+        if rel == "twin":
+            d["name"] = d["name"] + "Twin"
+        elif rel == "wider":
+            d["name"] = d["name"] + "Wider"
+            d["kw"]["hasProps"] = True
+            d["props"] = list(d.get("props", [])) + [[{"name": "zz_extra", "source": "zz_extra"}, {"cls": "String", "kw": {}}]]
+        out = dsl.build(d)
+    cache[key] = out
+    return out
+
+
+def has_refs(v):
+    if isinstance(v, ModelRef):
+        return True
+    if isinstance(v, (list, tuple)):
+        return any(has_refs(x) for x in v)
+    if isinstance(v, dict):
+        return any(has_refs(x) for x in v.values())
+    return False
+
+
+def ref_rels(v, out):
+    if isinstance(v, ModelRef):
+        out.append(v.rel)
+    elif isinstance(v, (list, tuple)):
+        for x in v:
+            ref_rels(x, out)
+    elif isinstance(v, dict):
+        for x in v.values():
+            ref_rels(x, out)
+    return out
+
+
+def realize(v, classes_list, cache):
+    """the actual input: every ModelRef replaced by a freshly built instance (raises if one cannot be built)"""
+    if isinstance(v, ModelRef):
+        c = classes_list[v.idx]
+        if c.__name__ != v.name:
+            raise LookupError(f"class #{v.idx} is {c.__name__}, not {v.name}")
+        return related_class(c, v.rel, cache)(copy.deepcopy(v.data))
+    if isinstance(v, list):
+        return [realize(x, classes_list, cache) for x in v]
+    if isinstance(v, dict):
+        return {k: realize(x, classes_list, cache) for k, x in v.items()}
+    return v
+
+
+def enc_sym(v):
+    if isinstance(v, NotPassed):
+        return {"np": 1}
+    if isinstance(v, ModelRef):
+        return {"m": {"idx": v.idx, "name": v.name, "rel": v.rel, "data": core.enc_val(v.data)}}
+    if isinstance(v, (list, tuple)):
+        return [enc_sym(x) for x in v]
+    if isinstance(v, dict):
+        return {"o": [[k, enc_sym(x)] for k, x in v.items()]}
+    return core.enc_val(v)
+
+
+def dec_sym(j):
+    if isinstance(j, list):
+        return [dec_sym(x) for x in j]
+    if isinstance(j, dict):
+        if "np" in j:
+            return core.NP
+        if "m" in j:
+            m = j["m"]
+            return ModelRef(int(m["idx"]), m["name"], m["rel"], dsl.dec_val(m["data"]))
+        if "o" in j:
+            return {k: dec_sym(x) for k, x in j["o"]}
+    return dsl.dec_val(j)
+
+
+def instancify(rng, el, value, index, p=0.5, depth=0):
+    """Walk a JSON value along the element tree; a dict sitting where the schema is a model class becomes, with probability p,
+    an already-built instance of a class related to that class.  (The walk only guesses which composition member applies:
+    whatever it produces is just another input value.)"""
+    if depth > 8:
+        return value
+    if isinstance(el, ObjectMeta):
+        if not isinstance(value, dict):
+            return value
+        if id(el) in index and rng.random() < p:
+            return ModelRef(index[id(el)], el.__name__, rng.choice(ModelRef.RELS), value)
+        by_source = {pr.source: pr for pr in el.properties.values()}
+        return {k: (instancify(rng, by_source[k].element, x, index, p, depth + 1) if k in by_source else x) for k, x in value.items()}
+    if isinstance(el, CompositionElement):
+        return instancify(rng, rng.choice(el.elements), value, index, p, depth + 1)
+    if isinstance(value, list):
+        items = getattr(el, "items", NotPassed())
+        if isinstance(items, list):
+            extra = getattr(el, "additionalItems", True)
+            return [instancify(rng, items[i], x, index, p, depth + 1) if i < len(items)
+                    else (instancify(rng, extra, x, index, p, depth + 1) if isinstance(extra, Element) else x) for i, x in enumerate(value)]
+        if isinstance(items, Element):
+            return [instancify(rng, items, x, index, p, depth + 1) for x in value]
+        return value
+    if isinstance(value, dict):
+        props = getattr(el, "properties", None)
+        if isinstance(props, dict):
+            by_source = {(pr.source or n): pr for n, pr in props.items()}
+            return {k: (instancify(rng, by_source[k].element, x, index, p, depth + 1) if k in by_source else x) for k, x in value.items()}
+    return value
+
+
+# ----------------------------------------------------------------------------- the oracle, on every reachable model instance
+
+def walk_models(value, steps, depth=0):
+    """every model instance reachable from a constructed value without passing through another one, with the steps leading to it"""
+    if depth > 12:
+        return
+    if isinstance(value, Object):
+        yield steps, value
+    elif isinstance(value, (list, tuple)):
+        for i, x in enumerate(value):
+            yield from walk_models(x, steps + [i], depth + 1)
+    elif isinstance(value, dict):
+        for k, x in value.items():
+            yield from walk_models(x, steps + [k], depth + 1)
+
+
+def show_steps(steps):
+    return "".join(f"[{s}]" if isinstance(s, int) else f".{s}" for s in steps).lstrip(".")
+
+
+def model_at(rv, steps):
+    """the model's constructed value (canonical result shape) at the end of `steps`; KeyError if there is nothing"""
+    for s in steps:
+        if isinstance(rv, list):
+            rv = rv[s]
+        elif isinstance(rv, dict) and any(k in rv for k in ("d", "anon", "dict")):
+            pairs = rv.get("d", rv.get("anon", rv.get("dict")))
+            hit = [x for k, x in pairs if k == s]
+            if not hit:
+                raise KeyError(s)
+            rv = hit[-1]
+        else:
+            raise KeyError(s)
+    return rv
+
+
+def pattern_overlap_default(owner, prop):
+    """the region of the open finding C05-pattern-overlap: an optional declared property with a default whose JSON name is also
+    matched by a pattern of the owning class (the declared+pattern composite has no default)"""
+    if prop.required or isinstance(getattr(prop.element, "default", NotPassed()), NotPassed):
+        return False
+    pats = getattr(owner, "patternProperties", NotPassed())
+    if not isinstance(pats, dict):
+        return False
+    for pat in pats:
+        try:
+            if re.search(pat, prop.source or prop.name):
+                return True
+        except (re.error, TypeError):
+            continue
+    return False
+
+
+class Run:
+    """what stays the same while one class is checked on a list of values"""
+
+    def __init__(self, drv, cls, class_dump, out, stats, label, history):
+        self.drv, self.cls, self.class_dump, self.out, self.stats, self.label, self.history = drv, cls, class_dump, out, stats, label, history
+        self.model = {}            # class name -> {attribute -> annotation text}, from the Lean model
+        self.names = {}            # name -> class objects of the tree
+        self.own = {}              # id(class) -> name -> class objects, for classes that are not part of the tree
+        self.listed = None
+
+    def classes_of(self, c):
+        if any(c is x for x in self.names.get(c.__name__, [])):
+            return self.names
+        if id(c) not in self.own:
+            m = {}
+            for x in get_object_classes(c):
+                m.setdefault(x.__name__, []).append(x)
+            self.own[id(c)] = m
+        return self.own[id(c)]
+
+    def model_accepts(self, v):
+        """the model's outcome of building the outermost class from this very value (None: not expressible / model error)"""
+        if self.class_dump is None or has_refs(v):
+            return None
+        texts = set()
+        core.all_strings(self.class_dump, texts)
+        core.all_strings(v, texts)
+        pats = set()
+        try:
+            pats, _ = core.elem_patterns_formats(self.cls)
+        except Exception:  # noqa: BLE001
+            pats = set()
+        try:
+            rep = self.drv.ask({"op": "elem_call", "elem": self.class_dump, "args": [core.enc_arg(v)], "tables": core.make_tables(pats, set(), sorted(texts))})
+        except (TypeError, ValueError):
+            return None
+        if "error" in rep:
+            return None
+        return rep["results"][0]
+
+    def c05_listed(self):
+        if self.listed is None:
+            from harness.framework import load_findings
+            self.listed = any(f.get("id") == "C19-pattern-overlap-default" and f.get("status") == "open" for f in load_findings(ID))
+        return self.listed
+
+
+def check_instance(run, inst, steps, v, seen, depth=0):
+    """one model instance: every property's annotation vs the attribute; then every model instance below it.  True = failure recorded."""
+    out, stats = run.out, run.stats
+    if id(inst) in seen or depth > 12:
+        return False
+    seen.add(id(inst))
+    owner = type(inst)
+    classes = run.classes_of(owner)
+    unique = len(run.names.get(owner.__name__, [])) == 1 and run.names[owner.__name__][0] is owner
+    model_ann = run.model.get(owner.__name__, {}) if unique else {}
+    where = show_steps(steps)
+    if steps:
+        stats["nested-instances-checked"] = stats.get("nested-instances-checked", 0) + 1
+    for name, prop in owner.properties.items():
+        full = (where + "." if where else "") + name
+        case = {"label": run.label, "class": run.class_dump, "history": run.history, "value": enc_sym(v), "property": full, "annotation": None}
+        try:
+            text = prop.annotation
+        except Exception as exc:  # noqa: BLE001 - the library failing to annotate a property of a built model is a failure
+            out.failures.append({"case": case, "what": f"{owner.__name__}.{name}: annotation raised {type(exc).__name__}: {exc}", "finding": None})
+            return True
+        case["annotation"] = text
+        attr = getattr(inst, name, NotPassed())
+        out.note_case({"class": run.class_dump, "value": case["value"], "property": full}, text not in ("Any", "Maybe[Any]"))
+        key = "ann-" + ("Maybe" if text.startswith("Maybe[") else "bare") + ("-nested" if steps else "")
+        stats[key] = stats.get(key, 0) + 1
+        # a listed finding only where the model predicts the very annotation the library printed
+        finding = "C19-allof-annotation" if has_allof_nonhead(prop.element) and model_ann.get(name) == norm(text) else None
+        try:
+            ok = conforms(attr, ast.parse(text, mode="eval"), classes)
+        except (Bad, SyntaxError) as exc:
+            out.failures.append({"case": case, "what": f"annotation {text!r} cannot be read: {exc}", "finding": None})
+            return True
+        bare = not text.startswith("Maybe[")
+        if not ok and not (bare and isinstance(attr, NotPassed)):
+            if finding is not None and run.class_dump is not None:
+                # ... and only where the model also accepts this very value: a value the unchanged code refuses is a different failure
+                res = run.model_accepts(v)
+                if res is None or res.get("r") != "ok":
+                    finding = None
+            out.failures.append({"case": case, "what": f"{owner.__name__}.{name} is annotated {text} but holds {attr!r}" + (f" (at {where})" if where else ""), "finding": finding})
+            return True
+        if bare:
+            has_default = not isinstance(getattr(prop.element, "default", NotPassed()), NotPassed)
+            if not (prop.required or has_default):
+                out.failures.append({"case": case, "what": f"{owner.__name__}.{name} is annotated as always present ({text}) but is neither required nor defaulted", "finding": None})
+                return True
+            if isinstance(attr, NotPassed):
+                finding = None
+                if pattern_overlap_default(owner, prop):
+                    # the region of C05-pattern-overlap - and, where the model can be asked, only if it predicts the very same hole
+                    res = run.model_accepts(v)
+                    predicted = True
+                    if res is not None:
+                        try:
+                            predicted = res.get("r") == "ok" and model_at(res.get("v"), steps + [name]) == {"np": 1}
+                        except (KeyError, IndexError, TypeError):
+                            predicted = False
+                    if predicted:
+                        stats["c05-pattern-overlap-default-lost"] = stats.get("c05-pattern-overlap-default-lost", 0) + 1
+                        if not run.c05_listed():
+                            continue       # see ASSUMPTIONS: counted, and said in the notes
+                        finding = "C19-pattern-overlap-default"
+                out.failures.append({"case": case, "what": f"{owner.__name__}.{name} is annotated as always present ({text}) but is not passed" + (f" (at {where})" if where else ""), "finding": finding})
+                return True
+    # every model below this one: attribute values, and members kept only in the mapping (additional / pattern properties)
+    below = [(steps + [name], getattr(inst, name, NotPassed())) for name in owner.properties]
+    held = getattr(inst, "_dict", None)
+    if isinstance(held, dict):
+        below += [(steps + [k], x) for k, x in held.items() if k not in owner.properties]
+    for st, val in below:
+        for st2, sub in walk_models(val, st):
+            if check_instance(run, sub, st2, v, seen, depth + 1):
+                return True
+    return False
+
+
 def check_class(drv, cls, class_dump, values, out, stats, label, history=None):
-    """cls: a model class; every property's annotation vs the attribute values of built instances."""
-    classes = {}
+    """cls: a model class; every property's annotation vs the attribute values of built instances (values may hold ModelRefs)."""
+    run = Run(drv, cls, class_dump, out, stats, label, history)
+    classes = run.names
     for c in get_object_classes(cls):
         classes.setdefault(c.__name__, []).append(c)
+    order = tree_classes(cls)
     # --- the model: annotation text of every property
-    model_ann = {}
     if class_dump is not None:
         rep = drv.ask({"op": "emit_module", "elements": [class_dump]})
         if "error" not in rep and rep.get("r") == "ok":
             out.traces_validated += 1
             model = {c["name"]: {p["attr"]: norm(p["ann"]) for p in c["props"]} for c in rep["classes"]}
-            model_ann = model.get(cls.__name__, {}) if len(classes.get(cls.__name__, [])) == 1 else {}
+            run.model = model
             for c in get_object_classes(cls):
                 if len(classes[c.__name__]) != 1:
                     continue      # a name the tree uses for several class objects: the model keys classes by name
@@ -180,50 +509,28 @@ def check_class(drv, cls, class_dump, values, out, stats, label, history=None):
                 if c.__name__ in model and model[c.__name__] != real:
                     out.disagreements.append({"what": f"property annotations of {c.__name__}", "impl": real, "model": model[c.__name__], "class": class_dump, "label": label})
                     break
+    cache = {}
     for v in values:
+        rels = ref_rels(v, [])
         try:
-            inst = cls(v)
+            given = realize(v, order, cache) if rels else v
+        except Exception:  # noqa: BLE001 - the instance to hand in could not be built from its data: not an input
+            stats["instance-unbuildable"] = stats.get("instance-unbuildable", 0) + 1
+            continue
+        try:
+            inst = cls(given)
         except Exception:  # noqa: BLE001
             stats["rejected"] = stats.get("rejected", 0) + 1
+            for r in set(rels):
+                stats[f"holds-{r}-instance-rejected"] = stats.get(f"holds-{r}-instance-rejected", 0) + 1
             continue
         if not isinstance(inst, cls):
             continue
         stats["accepted"] = stats.get("accepted", 0) + 1
-        for name, prop in cls.properties.items():
-            text = prop.annotation
-            attr = getattr(inst, name, NotPassed())
-            case = {"label": label, "class": class_dump, "history": history, "value": core.enc_arg(v), "property": name, "annotation": text}
-            out.note_case({"class": class_dump, "value": core.enc_arg(v), "property": name}, text not in ("Any", "Maybe[Any]"))
-            stats["ann-" + ("Maybe" if text.startswith("Maybe[") else "bare")] = stats.get("ann-" + ("Maybe" if text.startswith("Maybe[") else "bare"), 0) + 1
-            # a listed finding only where the model predicts the very annotation the library printed
-            finding = "C19-allof-annotation" if has_allof_nonhead(prop.element) and model_ann.get(name) == norm(text) else None
-            try:
-                ok = conforms(attr, ast.parse(text, mode="eval"), classes)
-            except (Bad, SyntaxError) as exc:
-                out.failures.append({"case": case, "what": f"annotation {text!r} cannot be read: {exc}", "finding": None})
-                return
-            if not ok:
-                if finding is not None and class_dump is not None:
-                    # ... and only where the model also accepts this very value: a value the unchanged code refuses is a different failure
-                    texts = set()
-                    core.all_strings(class_dump, texts)
-                    core.all_strings(v, texts)
-                    try:
-                        rep = drv.ask({"op": "elem_call", "elem": class_dump, "args": [core.enc_arg(v)], "tables": core.make_tables(set(), set(), sorted(texts))})
-                    except (TypeError, ValueError):
-                        rep = {"error": "unencodable"}
-                    if "error" in rep or rep["results"][0].get("r") != "ok":
-                        finding = None
-                out.failures.append({"case": case, "what": f"{cls.__name__}.{name} is annotated {text} but holds {attr!r}", "finding": finding})
-                return
-            if not text.startswith("Maybe["):
-                has_default = not isinstance(getattr(prop.element, "default", NotPassed()), NotPassed)
-                if not (prop.required or has_default):
-                    out.failures.append({"case": case, "what": f"{cls.__name__}.{name} is annotated as always present ({text}) but is neither required nor defaulted", "finding": None})
-                    return
-                if isinstance(attr, NotPassed):
-                    out.failures.append({"case": case, "what": f"{cls.__name__}.{name} is annotated as always present ({text}) but is not passed", "finding": None})
-                    return
+        for r in set(rels):
+            stats[f"holds-{r}-instance-accepted"] = stats.get(f"holds-{r}-instance-accepted", 0) + 1
+        if check_instance(run, inst, [], v, set()):
+            return
 
 
 def element_annotations(drv, el, dump, out, stats):
@@ -333,12 +640,141 @@ def class_default_family(rng):
     return inner, [{"a": 2}, {}, {"b": "y"}, 3]
 
 
+def _cls(name, props, **kw):
+    return {"cls": "Object", "name": name, "kw": {"hasProps": True, **kw},
+            "props": [[{"name": n, "source": n, **({"required": True} if req else {})}, sub] for n, req, sub in props]}
+
+
+def pattern_overlap_family(rng):
+    """A class whose `patternProperties` also match the JSON names of declared properties: for such a key the declared schema and
+    every matching pattern schema apply together, while the annotation is the declared schema's alone.  Declared schemas that
+    build something (classes, arrays / tuples / unions of classes) and ones that do not; pattern schemas untyped, typed, or
+    classes themselves; used as the outermost class or below a property / array of it.  No defaults here (see ASSUMPTIONS)."""
+    leaf = lambda c, **kw: {"cls": c, "kw": {k: core.enc_val(x) for k, x in kw.items()}}
+    names = rng.sample(["shipping_address", "shipping_history", "billing", "name", "a", "ab", "kind_1", "x1"], rng.randint(2, 4))
+    props, vals = [], {}
+    for n in names:
+        addr = _cls("Address_" + n, [("street", True, leaf("String")), ("floor", False, leaf("Number"))])
+        good = [{"street": "s", "floor": 2}, {"street": "t"}, {"street": "u", "floor": 1.5}]
+        k = rng.randrange(8)
+        if k == 0:
+            sub, vs = addr, good + [{}, "x"]
+        elif k == 1:
+            sub, vs = {"cls": "Array", "kw": {"itemsKind": "single"}, "items": [addr]}, [[good[0]], [good[1], good[2]], [], [3]]
+        elif k == 2:
+            sub, vs = {"cls": "Array", "kw": {"itemsKind": "tuple"}, "items": [addr, leaf("String")]}, [[good[0], "x"], [good[1]], [], [good[2], "y", 1]]
+        elif k == 3:
+            sub = {"cls": rng.choice(["AnyOf", "OneOf"]), "kw": {}, "elements": rng.sample([addr, leaf("Null"), leaf("String")], rng.randint(1, 3))}
+            vs = good + [None, "x"]
+        elif k == 4:
+            sub, vs = {"cls": "AllOf", "kw": {}, "elements": [addr, {"cls": "Element", "kw": {"required": ["street"]}}]}, good + [{}]
+        elif k == 5:
+            sub, vs = leaf(rng.choice(["String", "Number", "Integer"])), ["s", "", 3, 2.5]
+        elif k == 6:
+            sub, vs = {"cls": "Array", "kw": {"itemsKind": "single"}, "items": [leaf("String")]}, [["a"], [], ["a", "b"], [1]]
+        else:
+            sub, vs = {"cls": "Element", "kw": {"hasProps": True}, "props": [[{"name": "street", "source": "street"}, addr]]}, [{"street": good[0]}, {}, 3]
+        props.append((n, rng.random() < 0.4, sub))
+        vals[n] = vs
+    target = rng.choice(names)
+    pats = rng.sample(["^" + target[: rng.randint(1, len(target))], target[-2:] + "$", re.escape(target), "_", ".*", "^[a-z_0-9]+$", "[0-9]$", "^$"], rng.randint(1, 2))
+    pat_schemas = [leaf("Element"), leaf("Element", minProperties=1, minItems=1), {"cls": "Element", "kw": {"required": ["street"]}},
+                   {"cls": "Element", "kw": {"hasProps": True}, "props": [[{"name": "street", "source": "street"}, leaf("String")]]},
+                   {"cls": "Element", "kw": {"itemsKind": "single"}, "items": [leaf("Element")]}, leaf("Element", minLength=1),
+                   {"cls": "Object", "name": "Anything", "kw": {"hasProps": True}}, leaf("String"),
+                   {"cls": "AnyOf", "kw": {}, "elements": [leaf("Element", minProperties=1), leaf("Null")]}]
+    pat_props = [[{"name": p}, copy.deepcopy(rng.choice(pat_schemas))] for p in pats]
+    for i, (_, ps) in enumerate(pat_props):
+        if ps["cls"] == "Object":
+            ps["name"] = f"Anything{i}"
+    kw = {"hasPatProps": True}
+    k = rng.random()
+    if k < 0.2:
+        kw["addPropsB"] = False
+    inner = _cls("Customer", props, **kw)
+    inner["patProps"] = pat_props
+    if 0.2 <= k < 0.35:
+        inner["addProps"] = leaf("String")
+    docs = [{}]
+    for _ in range(9):
+        d = {}
+        for n in names:
+            if rng.random() < 0.85:
+                d[n] = rng.choice(vals[n])
+        if rng.random() < 0.25:
+            d[rng.choice([target + "_x", "zzz", "other_1"])] = rng.choice([{"k": 1}, "s", [1], {"street": "s"}])
+        docs.append(d)
+    shape = rng.choice(["top", "top", "property", "array"])
+    if shape == "top":
+        return inner, docs, shape
+    if shape == "property":
+        return _cls("Holder", [("customer", rng.random() < 0.5, inner)]), [{"customer": d} for d in docs] + [{}], shape
+    holder = _cls("Holder", [("customers", False, {"cls": "Array", "kw": {"itemsKind": "single"}, "items": [inner]})])
+    return holder, [{"customers": rng.sample(docs, rng.randint(0, 3))} for _ in range(9)] + [{}], shape
+
+
+def model_positions_family(rng):
+    """Class-typed positions of every kind (property, array items, tuple items, union member, allOf head, additional properties)
+    whose classes have the same shape under different names, beside one of a different shape; the data is valid JSON for them -
+    `instancify` then hands in already-built models instead of some of the dicts."""
+    leaf = lambda c: {"cls": c, "kw": {}}
+    second = rng.choice([("city", "String"), ("floor", "Number"), ("tags", None)])
+
+    def addr(name):
+        extra = leaf(second[1]) if second[1] else {"cls": "Array", "kw": {"itemsKind": "single"}, "items": [leaf("String")]}
+        return _cls(name, [("street", True, leaf("String")), (second[0], False, extra)])
+    contact = _cls("Contact", [("street", True, leaf("String")), ("phone", False, leaf("String"))])
+    home = [{"street": "1 Main St"}, {"street": "2 Side St", second[0]: {"city": "Leeds", "floor": 2, "tags": ["a"]}[second[0]]}]
+    pool = {
+        "billing": (addr("BillingAddress"), lambda: rng.choice(home)),
+        "shipping": (addr("ShippingAddress"), lambda: rng.choice(home)),
+        "previous": ({"cls": "Array", "kw": {"itemsKind": "single"}, "items": [addr("PreviousAddress")]}, lambda: [rng.choice(home) for _ in range(rng.randint(0, 2))]),
+        "pair": ({"cls": "Array", "kw": {"itemsKind": "tuple"}, "items": [addr("FromAddress"), addr("ToAddress")]}, lambda: [rng.choice(home) for _ in range(rng.randint(0, 3))]),
+        "either": ({"cls": rng.choice(["AnyOf", "OneOf"]), "kw": {}, "elements": [addr("EitherAddress"), leaf("Null")]}, lambda: rng.choice(home + [None])),
+        "both": ({"cls": "AllOf", "kw": {}, "elements": [addr("BothAddress"), {"cls": "Element", "kw": {"required": ["street"]}}]}, lambda: rng.choice(home)),
+        "contact": (contact, lambda: rng.choice([{"street": "s"}, {"street": "s", "phone": "1"}])),
+    }
+    names = rng.sample(sorted(pool), rng.randint(2, 5))
+    holder = _cls("Order", [(n, rng.random() < 0.3, pool[n][0]) for n in names])
+    if rng.random() < 0.3:
+        holder["addProps"] = addr("OtherAddress")
+    docs = [{}]
+    for _ in range(9):
+        d = {n: pool[n][1]() for n in names if rng.random() < 0.85}
+        if "addProps" in holder and rng.random() < 0.5:
+            d["other"] = rng.choice(home)
+        docs.append(d)
+    return holder, docs, "order"
+
+
+WHOLE_CLASS = {"pattern-overlap": pattern_overlap_family, "model-positions": model_positions_family}
+
+
+def with_models(rng, cls, values, stats, p, limit):
+    """variants of up to `limit` of the values in which dicts at class-typed positions are already-built model instances"""
+    index = {id(c): i for i, c in enumerate(tree_classes(cls))}
+    out = []
+    for v in rng.sample(values, min(limit, len(values))):
+        try:
+            w = instancify(rng, cls, v, index, p)
+        except Exception:  # noqa: BLE001
+            stats["instancify-raised"] = stats.get("instancify-raised", 0) + 1
+            continue
+        if has_refs(w):
+            out.append(w)
+    stats["values-holding-built-models"] = stats.get("values-holding-built-models", 0) + len(out)
+    return out
+
+
 def run(ctx, scale=1.0):
     rng = random.Random(ctx["seed"] + 19)
     out = Outcome()
     out.rule = ("a model class with 1-3 properties (required / optional / defaulted) whose elements are DSL trees of depth <= 3 (typed leaves, arrays, tuple "
                 "items, classes, anyOf/oneOf/allOf/not), built from 8+ generated values each; families: random, tuple items of structurally equal distinct "
-                "classes, compositions of classes, parent-then-child and child-then-parent use of subclasses; a case is one attribute of one built model; "
+                "classes, compositions of classes, parent-then-child and child-then-parent use of subclasses, classes whose patternProperties match declared "
+                "property names (outermost / under a property / under array items), same-shaped classes at every kind of class-typed position; for every "
+                "family, variants of the values in which dicts at class-typed positions are already-built instances (of that class, an empty subclass, the "
+                "same declaration under another name or rebuilt, a wider class); a case is one attribute of one model instance reachable from a built model; "
                 "non-trivial = the annotation is not Any / Maybe[Any]; distinct by SHA-256")
     stats = {}
     drv = core.Driver()
@@ -346,10 +782,26 @@ def run(ctx, scale=1.0):
         dg, vg = dsl.DumpGen(rng), ValueGen(rng)
         n = int(N_TREES[ctx["tier"]] * scale)
         for i in range(n):
-            fam = ["random", "random", "class-default", "twin-tuple", "composition", "random", "subclass", "allof", "random", "allof-unions", "tuple-defaults", "member-default"][i % 12]
+            fam = ["random", "random", "class-default", "twin-tuple", "composition", "random", "subclass", "allof", "random", "allof-unions", "tuple-defaults", "member-default",
+                   "pattern-overlap", "model-positions"][i % 14]
             stats["family-" + fam] = stats.get("family-" + fam, 0) + 1
             if fam == "subclass":
                 check_subclass(drv, rng, dg, out, stats, i)
+                continue
+            if fam in WHOLE_CLASS:
+                class_dump, values, shape = WHOLE_CLASS[fam](rng)
+                stats[f"{fam}-{shape}"] = stats.get(f"{fam}-{shape}", 0) + 1
+                try:
+                    cls = dsl.build(class_dump)
+                except Exception:  # noqa: BLE001
+                    stats["unbuildable"] = stats.get("unbuildable", 0) + 1
+                    continue
+                for c in tree_classes(cls):
+                    for pn, pr in c.properties.items():
+                        if isinstance(getattr(c, "patternProperties", None), dict) and any(re.search(pt, pr.source or pn) for pt in c.patternProperties):
+                            stats["declared-property-under-pattern"] = stats.get("declared-property-under-pattern", 0) + 1
+                values = values + with_models(rng, cls, values, stats, 0.6 if fam == "model-positions" else 0.3, 8 if fam == "model-positions" else 3)
+                check_class(drv, cls, class_dump, values, out, stats, f"{fam}-{i}")
                 continue
             props, val_lists = [], {}
             names = rng.sample(["a", "b", "c", "items_", "kind"], rng.randint(1, 3))
@@ -398,9 +850,13 @@ def run(ctx, scale=1.0):
                     if rng.random() < 0.8:
                         v[pn] = rng.choice(val_lists[pn])
                 values.append(v)
+            values += with_models(rng, cls, values, stats, 0.5, 3)
             check_class(drv, cls, class_dump, values, out, stats, f"{fam}-{i}")
     finally:
         drv.close()
+    if stats.get("c05-pattern-overlap-default-lost"):
+        out.notes.append(f"{stats['c05-pattern-overlap-default-lost']} attribute(s) annotated as always present were left not-passed because a pattern also matches the "
+                         "defaulted property's name: the open finding C05-pattern-overlap, which breaks C19 as well (see ASSUMPTIONS)")
     out.stats = stats
     return out
 
@@ -471,7 +927,7 @@ def _replay_case(case):
     try:
         cls = dsl.build(case["class"])
         v = case["value"]
-        value = core.NP if isinstance(v, dict) and "np" in v else dsl.dec_val(v)
+        value = dec_sym(v)
         check_class(drv, cls, case["class"], [value], out, stats, "replay")
     finally:
         drv.close()
